@@ -127,6 +127,27 @@ class Watcher:
             time.sleep(0.02)
         return False
 
+    def cpu_ticks(self):
+        try:
+            with open("/proc/%d/stat" % self.p.pid) as f:
+                parts = f.read().rsplit(")", 1)[1].split()
+            return int(parts[11]) + int(parts[12])
+        except (OSError, IndexError, ValueError):
+            return -1
+
+    def wait_quiescent_patient(self, min_starts, quiet_s=0.3, limit_s=25.0, rounds=6):
+        """wait_quiescent, repeated for as long as the watcher makes progress (new hook events, or CPU time consumed) during a round: on a loaded machine a
+        regeneration can take longer than any fixed wall-clock bound. A whole round without any progress ends the wait (the caller decides what that means)."""
+        for _ in range(rounds):
+            n0, c0 = self.counts()[2], self.cpu_ticks()
+            if self.wait_quiescent(min_starts, quiet_s, limit_s):
+                return True
+            if not self.alive():
+                return False
+            if self.counts()[2] == n0 and self.cpu_ticks() == c0:
+                return False
+        return False
+
     def alive(self):
         return self.p.poll() is None
 
@@ -289,7 +310,7 @@ def run(ctx):
                     if time.monotonic() - t0 > 30:
                         raise Inconclusive("%s: initial regeneration did not start within 30 s wall" % name)
                     time.sleep(0.01)
-            elif not w.wait_quiescent(1, limit_s=30):
+            elif not w.wait_quiescent_patient(1, limit_s=30):
                 if not w.alive():
                     ctx.violation("watcher-died:startup", "%s: watcher exited during the initial generation" % name, {"case_dir": root})
                     return verdict
@@ -379,7 +400,7 @@ def run(ctx):
                 elif kind == "manifest-restore":
                     cur_outputs = ("cpp", "python", "json", "matlab")
                     save(os.path.join(root, "main/_package.yml"), manifest(cur_outputs), how)
-            ok = w.wait_quiescent(starts_before + 1, limit_s=25)
+            ok = w.wait_quiescent_patient(starts_before + 1, limit_s=25)
             s, e, n = w.counts()
             verdict.update(regenerations=s, events=n)
             ctx.ev()
